@@ -154,9 +154,23 @@ def gen_pairs(ctx, rng, count):
             opts["start"] = (t1 - datetime.timedelta(seconds=age)).replace(microsecond=0).strftime("%Y-%m-%dT%H:%M:%SZ")
         else:
             opts["start"] = start
+        # every third case relies on *stream defaults* (Stream.defaults, the "Stream defaults" page)
+        # for its timing options instead of spelling them in the URL
+        defaults = None
+        if i % 3 == 2:
+            defaults = {"timeShiftBufferDepth": int(opts.pop("depth"))}
+            if opts.get("mup") not in (None, "-1"):
+                defaults["minimumUpdatePeriod"] = int(opts.pop("mup"))
         q = "&".join(f"{k}={v}" for k, v in opts.items())
-        out.append((stream, f"/dash/live/{stream}/{man}?{q}", t1, t1 + delta, kind, opts))
+        out.append((stream, f"/dash/live/{stream}/{man}?{q}", t1, t1 + delta, kind, opts, defaults))
     return out
+
+
+def set_stream_defaults(app, stream, defaults):
+    with app.ctx() as models:
+        s_ = models.Stream.get(directory=stream)
+        s_.defaults = defaults
+        models.db.session.commit()
 
 
 def ch_pair(ctx) -> Channel:
@@ -176,9 +190,12 @@ def ch_pair(ctx) -> Channel:
     rng = ctx.rng("manifest_pair")
     lines, recs = [], []
     with appboot.Clock("2023-01-01T00:00:00Z") as clock:
-        for stream, url, t1, t2, kind, opts in gen_pairs(ctx, rng, ctx.scale(48, 400)):
+        for stream, url, t1, t2, kind, opts, defaults in gen_pairs(ctx, rng, ctx.scale(48, 400)):
             ch.evaluations += 1
             ch.count(f"delta:{kind}")
+            set_stream_defaults(app, stream, defaults)
+            if defaults:
+                ch.count("stream_defaults")
             ch.count(f"start:{opts['start'] if opts['start'] in ('epoch','year','month','today') else 'explicit'}")
             trk = segchecks.tracks(app, stream)
             clock.set(t1)
@@ -190,7 +207,8 @@ def ch_pair(ctx) -> Channel:
                 continue
             m1 = segwalk.parse_mpd("http://localhost" + url, r1.data)
             m2 = segwalk.parse_mpd("http://localhost" + url, r2.data)
-            case = {"url": url, "t1": segchecks.iso(t1), "t2": segchecks.iso(t2), "delta": kind}
+            case = {"url": url, "t1": segchecks.iso(t1), "t2": segchecks.iso(t2), "delta": kind,
+                    "stream": stream, "stream_defaults": defaults}
             # publishTime / AST monotone
             if m2.publish_us < m1.publish_us or m2.ast_us < m1.ast_us:
                 ch.oracle_failures.append({**case, "kind": "time-moves-back",
@@ -256,6 +274,8 @@ def ch_pair(ctx) -> Channel:
             if overlap:
                 ch.nontrivial.add((url, case["t1"], case["t2"]))
             ch.sample(case, limit=3)
+    for st_ in ("bbb", "tears", "syn1", "syn2", "syn3"):
+        set_stream_defaults(app, st_, None)
     model = _driver(ch, lines)
     for (case, rep_id, impl), mo, line in zip(recs, model, lines):
         if mo is not None and mo != impl:
@@ -292,6 +312,8 @@ def replay(ctx, payload):
         app = segchecks.get_app()
         c = app.client()
         out = {}
+        if f.get("stream"):
+            set_stream_defaults(app, f["stream"], f.get("stream_defaults"))
         with appboot.Clock(f["t1"]) as clock:
             out["status_t1"] = c.get(f["url"]).status_code
             clock.set(f["t2"])
